@@ -2,6 +2,7 @@ import Femio.Driver.Proto
 import Femio.Driver.Mesh
 import Femio.Driver.C11
 import Femio.Model.Convert
+import Femio.Model.GraphOps
 /-! driver commands for C14 (exact rational conversions)
 
 ```
@@ -13,6 +14,9 @@ c14.e2n <mode> <wkind> <mesh> <list rat> <list column>
    column = one value per element in flattened order
    -> ok <list (node id <list (1 value)>)>  nodes in storage order
       | ok nometric                             an element type without a volume kernel (wkind 2)
+c14.e2n1 <mode> <mesh> <list column>           the same with order1_only=True, weight=False (also reached through an explicit
+   -> ok <list (node id <list (1 value)>)>     incidence= calculate_incidence_matrix(order1_only=True)): rows = first-order nodes
+      | ok unsupported                          a second-order type other than tet2 / hex2
 ``` -/
 namespace Femio.C14
 open Femio.Proto Core
@@ -59,6 +63,23 @@ def handle : List String → Option String
       if mode = "mean" ∨ mode = "effective" then
         some ("ok " ++ showList (fun (nid, vs) => toString nid ++ " " ++ showList showCell vs) out)
       else some "err bad-op"
+  | "c14.e2n1" :: rest => do
+    let (mode, m, cols) ← run (do let mode ← tok; let m ← meshP; let cols ← listOf (listOf rat); pure (mode, m, cols)) rest
+    if !Femio.C13.supportedO1 m.elemBlocks then some "ok unsupported" else
+    let flat := flatten m.elemBlocks
+    let ids := Femio.C13.order1Nodes m.nodeIds m.elemBlocks
+    let n := Femio.C13.nRows true m.nodeIds m.elemBlocks
+    let e := flat.length
+    let pairs := Femio.C13.incidenceOpt true m.nodeIds m.elemBlocks
+    let rows : Array (List Nat) := pairs.foldl (fun a (i, j) => if i < a.size then a.modify i (j :: ·) else a) (Array.replicate n [])
+    let inc : Nat → Nat → Bool := fun i j => (rows.getD i []).contains j
+    let out : List (Nat × List (Option Rat)) := (ids.zip (List.range n)).map fun (nid, i) =>
+      (nid, cols.map fun col =>
+        if mode = "mean" then some (e2nMean e inc (fun _ => 1) (colFn col) i)
+        else some (e2nEffective n e inc (colFn col) i))
+    if mode = "mean" ∨ mode = "effective" then
+      some ("ok " ++ showList (fun (nid, vs) => toString nid ++ " " ++ showList showCell vs) out)
+    else some "err bad-op"
   | _ => none
 
 end Femio.C14
